@@ -3,7 +3,8 @@
    absent amount = elided posting, `@ u` -> cost u * amount, `@@ t` -> cost t (negated for a
    negative amount), `= a` -> assigned amount), and of posts_as_equity::report_subtotal
    (filters.cc:1081-1141).
-   Not modelled (glue): column widths, padding, where a note is placed, the order in which
+   Layout: only the rule that separates account and amount (account_width, sep_blanks) is modelled;
+   not modelled (glue): where a note is placed, the order in which
    std::map iterates accounts in the equity report (the theorems are per account). *)
 From LedgerV Require Import Base.Prelude Base.Round Model.Amount Model.AmountText Model.Xact.
 Local Open Scope Z_scope.
@@ -149,6 +150,27 @@ Definition decide (cp : comm -> Z) (xs : pstate) (l : list xpost) : res (list pl
   | [] => Ok []
   | first :: _ => decide_from cp xs (length l) first 1 l
   end.
+
+(* ------------------------------------------------------------------ layout of a posting line *)
+(* print.cc:188-198 (account column), 216-223 and 242-245 (the amount right-justified in 12
+   columns), 249-258 (the gap is topped up to two blanks), 280-287 (padding is written only in
+   front of a non-empty trailer).  Lengths are in characters (unistring), the account name includes
+   its state mark and its () or [] *)
+Definition account_width (name_lens : list Z) : Z := fold_left Z.max name_lens 36.
+
+(* number of blanks between the account name and what follows on the line (the amount; for a
+   posting without amount text: trailing blanks).  amt_len = 0 stands for "no amount text" *)
+Definition sep_blanks (width name_len amt_len : Z) : Z :=
+  let slip := width - name_len in
+  if amt_len =? 0 then (if slip <? 2 then slip + (2 - slip) else 0)
+  else
+    let amt_slip := Z.max 0 (12 - amt_len) in
+    slip + (if slip + amt_slip <? 2 then 2 - (slip + amt_slip) else 0) + amt_slip.
+
+(* a posting whose amount finalize calculated is written as its account name alone (print.cc:288-290):
+   no padding at all; every other posting goes through the trailer *)
+Definition posting_blanks (calculated : bool) (width name_len amt_len : Z) : Z :=
+  if calculated then 0 else sep_blanks width name_len amt_len.
 
 (* which transactions reach print_xacts at all: the posting chain in front of it drops every
    posting whose amount displays as zero unless --empty is given (display_filter_posts,
